@@ -247,6 +247,17 @@ def phase_cases():
             for R in DISTS:
                 if abs(r - d) < R < r + d:
                     out.append({"r": r, "delta": d, "R": R})
+    # aligned and nearly aligned bodies: inferior conjunction (delta = R - r, phase angle 180, dark),
+    # opposition (delta = r - R) and superior conjunction (delta = r + R): phase angle 0, fully lit
+    for r in DISTS + [0.25, 0.75]:
+        for R in (1.0, 0.72, 5.2):
+            if r == R:
+                continue
+            for d in (abs(R - r), r + R):
+                for f in (1.0, 1.0 + 1e-9, 1.0 - 1e-9, 1.0 + 1e-6, 1.0 - 1e-6, 1.001, 0.999):
+                    dd = d * f
+                    if abs(r - dd) <= R <= r + dd:
+                        out.append({"r": r, "delta": dd, "R": R})
     return out
 
 
